@@ -1,17 +1,30 @@
 ------------------------------ MODULE MC_LineTool ------------------------------
 (* All good/bad line sequences up to MaxLines; every reachable state is emitted with the history that reaches it.   *)
+(* Kind = "line": the ERROR protocol; Kind = "poly": the polygon protocol of Planimeter (bad = a terminator line).  *)
 EXTENDS LineTool, TLC, Json
 
-CONSTANT MaxLines
+CONSTANT MaxLines, Kind
 VARIABLE hist
 
 Init == LInit /\ hist = <<>>
 Next == /\ Len(hist) < MaxLines
-        /\ \E bad \in BOOLEAN : Line(bad) /\ hist' = Append(hist, bad)
+        /\ \E bad \in BOOLEAN : (IF Kind = "poly" THEN PLine(bad) ELSE Line(bad)) /\ hist' = Append(hist, bad)
 
 \* one output line per input line; the status is 1 exactly when some line was bad (and stays 1)
-ProtoInv == /\ nout = nin /\ nin = Len(hist)
+ProtoInv == Kind = "line" =>
+            /\ nout = nin /\ nin = Len(hist)
             /\ (status = 1) = (\E i \in 1..Len(hist) : hist[i])
             /\ status \in {0, 1}
-Emit == PrintT(ToJson(<<"seq", hist, status>>))
+\* one count per maximal run of vertex lines, equal to its length
+RECURSIVE SumSeq(_, _)
+SumSeq(s, i) == IF i > Len(s) THEN 0 ELSE s[i] + SumSeq(s, i + 1)
+RunStarts == {i \in 1..Len(hist) : ~hist[i] /\ (i = 1 \/ hist[i - 1])}
+PolyInv == Kind = "poly" =>
+           /\ nin = Len(hist) /\ nout = 0 /\ status = 0
+           /\ Len(PCounts) = Cardinality(RunStarts)
+           /\ SumSeq(PCounts, 1) = Cardinality({i \in 1..Len(hist) : ~hist[i]})
+           /\ \A k \in 1..Len(PCounts) : PCounts[k] >= 1
+           /\ pcur = (IF hist = <<>> \/ hist[Len(hist)] THEN 0
+                      ELSE Len(hist) - (CHOOSE i \in RunStarts : \A j \in RunStarts : j <= i) + 1)
+Emit == PrintT(ToJson(IF Kind = "poly" THEN <<"pseq", hist, PCounts>> ELSE <<"seq", hist, status>>))
 =============================================================================
